@@ -534,8 +534,141 @@ end Tumfl.Gen
 """
 
 
+# --------------------------------------------------------------------------- shared state scan (static; C14)
+MUTATORS = {"append", "extend", "insert", "pop", "remove", "clear", "sort", "reverse", "update", "setdefault", "popitem", "add", "discard"}
+
+
+def extract_sharedstate(rep: Report) -> str:
+    import ast as pyast
+
+    pkg = REPO / "tumfl"
+    files = sorted(pkg.rglob("*.py"))
+    shared: list[tuple[str, str, str]] = []          # (module, name, kind)
+    funcs: dict[str, dict] = {}                       # qualified function name -> {"calls": set, "writes": [...], "argmut": [...]}
+    mutable_ctor = (pyast.Dict, pyast.List, pyast.Set, pyast.DictComp, pyast.ListComp, pyast.SetComp)
+
+    def is_mutable_value(v) -> bool:
+        if isinstance(v, mutable_ctor):
+            return True
+        return isinstance(v, pyast.Call) and isinstance(v.func, pyast.Name) and v.func.id in ("dict", "list", "set", "defaultdict", "OrderedDict")
+
+    def root_name(e):
+        while isinstance(e, (pyast.Attribute, pyast.Subscript)):
+            e = e.value
+        return e.id if isinstance(e, pyast.Name) else None
+
+    for f in files:
+        mod = ".".join(f.relative_to(REPO).with_suffix("").parts)
+        tree = pyast.parse(f.read_text())
+        module_names = set()
+        for node in tree.body:
+            targets = []
+            if isinstance(node, pyast.Assign):
+                targets = [(t, node.value) for t in node.targets]
+            elif isinstance(node, pyast.AnnAssign) and node.value is not None:
+                targets = [(node.target, node.value)]
+            for t, v in targets:
+                if isinstance(t, pyast.Name) and is_mutable_value(v):
+                    shared.append((mod, t.id, "module-level " + type(v).__name__))
+                    module_names.add(t.id)
+            if isinstance(node, pyast.ClassDef) and not any(isinstance(b, pyast.Name) and b.id == "Enum" for b in node.bases):
+                for b in node.body:
+                    tv = []
+                    if isinstance(b, pyast.Assign):
+                        tv = [(t, b.value) for t in b.targets]
+                    elif isinstance(b, pyast.AnnAssign) and b.value is not None:
+                        tv = [(b.target, b.value)]
+                    for t, v in tv:
+                        if isinstance(t, pyast.Name) and is_mutable_value(v):
+                            shared.append((mod, f"{node.name}.{t.id}", "class-level " + type(v).__name__))
+        # functions
+        for node in pyast.walk(tree):
+            if not isinstance(node, (pyast.FunctionDef, pyast.AsyncFunctionDef)):
+                continue
+            q = f"{mod}:{node.name}"
+            d = funcs.setdefault(q, {"calls": set(), "writes": [], "argmut": [], "mod": mod, "name": node.name})
+            for a in node.args.defaults + node.args.kw_defaults:
+                if a is not None and is_mutable_value(a):
+                    shared.append((mod, f"{node.name}(default)", "mutable default argument"))
+            params = {a.arg for a in node.args.args + node.args.kwonlyargs}
+            for n in pyast.walk(node):
+                if isinstance(n, pyast.Global):
+                    d["writes"].append(("global " + ",".join(n.names), n.lineno))
+                if isinstance(n, pyast.Call):
+                    fn = n.func
+                    if isinstance(fn, pyast.Name):
+                        d["calls"].add(fn.id)
+                    elif isinstance(fn, pyast.Attribute):
+                        d["calls"].add(fn.attr)
+                        if fn.attr in MUTATORS:
+                            r = root_name(fn.value)
+                            if r in module_names:
+                                d["writes"].append((f"{r}.{fn.attr}()", n.lineno))
+                            # a mutating method on an attribute chain (node.statements.append, style.X.update ...): mutates an argument
+                            if isinstance(fn.value, (pyast.Attribute, pyast.Subscript)) and r not in ("self",) and mod.endswith("formatter"):
+                                d["argmut"].append((pyast.unparse(fn)[:60], n.lineno))
+                stores = []
+                if isinstance(n, pyast.Assign):
+                    stores = n.targets
+                elif isinstance(n, (pyast.AugAssign, pyast.AnnAssign)):
+                    stores = [n.target]
+                elif isinstance(n, pyast.Delete):
+                    stores = n.targets
+                for t in stores:
+                    if isinstance(t, (pyast.Subscript, pyast.Attribute)):
+                        r = root_name(t)
+                        if r in module_names:
+                            d["writes"].append((pyast.unparse(t)[:60], n.lineno))
+                        if isinstance(t, pyast.Attribute) and r != "self" and mod.endswith("formatter"):
+                            d["argmut"].append((pyast.unparse(t)[:60] + " =", n.lineno))
+    # reachability from the API entry points by called names
+    by_name: dict[str, list[str]] = {}
+    for q, d in funcs.items():
+        by_name.setdefault(d["name"], []).append(q)
+    entry_names = ["parse", "format", "resolve_recursive", "__init__", "get_next_token", "parse_chunk", "visit"]
+    seen: set[str] = set()
+    work = [q for n in entry_names for q in by_name.get(n, [])]
+    while work:
+        q = work.pop()
+        if q in seen:
+            continue
+        seen.add(q)
+        for c in funcs[q]["calls"]:
+            for q2 in by_name.get(c, []):
+                if q2 not in seen:
+                    work.append(q2)
+            # visit_* dispatch by name
+        if funcs[q]["name"] == "visit":
+            for n2, qs in by_name.items():
+                if n2.startswith("visit_"):
+                    work.extend(qs)
+    writes = sorted((q, w, ln) for q in seen for (w, ln) in funcs[q]["writes"])
+    argmut = sorted((q, w, ln) for q in seen for (w, ln) in funcs[q]["argmut"])
+    unreach = sorted((q, w, ln) for q in funcs if q not in seen for (w, ln) in funcs[q]["writes"])
+    rep.info["sharedstate"] = {"shared_objects": len(shared), "reachable_functions": len(seen), "functions": len(funcs),
+                               "writes_in_unreachable_functions": [f"{q} {w} line {ln}" for q, w, ln in unreach]}
+
+    def tl(rows):
+        return "[" + ", ".join(f"({lstr(a)}, {lstr(b)}, {c})" for a, b, c in rows) + "]"
+
+    return f"""/-! GENERATED by harness/extract.py: static scan of /repo/tumfl for shared mutable state - do not edit.
+`sharedObjects`: module-level / class-level mutable objects and mutable default arguments.
+`sharedWrites`: stores to, deletions from and mutating method calls on module-level mutable objects, and `global` statements, in functions reachable
+(by called names) from the API entry points parse / format / resolve_recursive / the Lexer, Parser and Formatter methods.
+`formatArgWrites`: in formatter.py, attribute stores on anything but `self` and mutating method calls on attribute chains (they would modify the AST or the style). -/
+namespace Tumfl.Gen
+
+def sharedObjects : List (String × String × String) := [{", ".join(f"({lstr(a)}, {lstr(b)}, {lstr(c)})" for a, b, c in sorted(set(shared)))}]
+def sharedWrites : List (String × String × Nat) := {tl(writes)}
+def formatArgWrites : List (String × String × Nat) := {tl(argmut)}
+
+end Tumfl.Gen
+"""
+
+
 EXTRACTORS = {
     "Brackets": extract_brackets,
+    "SharedState": extract_sharedstate,
     "Schema": extract_schema,
     "FmtTables": extract_fmttables,
     "Ladder": extract_ladder,
